@@ -30,6 +30,9 @@ func Gen(r *rng.R, t reflect.Type) interface{} {
 func GenV(r *rng.R, t reflect.Type) reflect.Value { return gen(r, t, 0) }
 
 func gen(r *rng.R, t reflect.Type, depth int) reflect.Value {
+	if sv, ok := fn.Special(t, r.U64()); ok {
+		return sv
+	}
 	v := reflect.New(t).Elem()
 	switch t.Kind() {
 	case reflect.Bool:
@@ -125,6 +128,14 @@ func gen(r *rng.R, t reflect.Type, depth int) reflect.Value {
 				v.Set(reflect.ValueOf((*fn.S3)(nil))) // typed nil
 			case 6:
 				v.Set(reflect.ValueOf(float64(r.Intn(9)) / 2))
+			}
+			if r.Chance(120) {
+				// self-referential and unexported-field structures behind an interface
+				if r.Intn(2) == 0 {
+					v.Set(reflect.ValueOf(fn.NewRing(r.U64())))
+				} else {
+					v.Set(reflect.ValueOf(fn.NewPriv(r.U64())))
+				}
 			}
 		}
 	case reflect.Map:
@@ -399,8 +410,20 @@ func show(sb *strings.Builder, v reflect.Value, depth int) {
 		} else {
 			sb.WriteString("ptr")
 		}
+	case reflect.Bool:
+		fmt.Fprintf(sb, "%v", v.Bool())
+	case reflect.Int, reflect.Int8, reflect.Int16, reflect.Int32, reflect.Int64:
+		fmt.Fprintf(sb, "%d", v.Int())
+	case reflect.Uint, reflect.Uint8, reflect.Uint16, reflect.Uint32, reflect.Uint64, reflect.Uintptr:
+		fmt.Fprintf(sb, "%d", v.Uint())
+	case reflect.Complex64, reflect.Complex128:
+		fmt.Fprintf(sb, "%v", v.Complex())
 	default:
-		fmt.Fprintf(sb, "%v", v.Interface())
+		if v.CanInterface() {
+			fmt.Fprintf(sb, "%v", v.Interface())
+		} else {
+			sb.WriteString("?" + v.Kind().String())
+		}
 	}
 }
 
